@@ -274,11 +274,20 @@ def r_stream(ctx, chk, prop, only_8bit=False):
         return
     # decoder constructed only in new / select_other_charset
     ctor_sites = []
+    sniffing = []
     for f, b in prog.bodies.items():
         for bi, t in prog.calls(b):
             n = cname(prog, t) or ''
             if 'encoding_rs::Encoding::new_decoder' in n:
                 ctor_sites.append(f)
+                if not (n.endswith('new_decoder_with_bom_removal') or n.endswith('new_decoder_without_bom_handling')):
+                    sniffing.append((short(f), n.split('::')[-1], t['span'].get('line')))
+    # .. and it never sniffs a byte-order mark: `new_decoder()` / `.._with_bom_handling()` turn the
+    # decoder into a UTF-16 one when the stream starts with FF FE / FE FF
+    chk.instance('R-STREAM', 'ByteParser', 'the decoder does not sniff a byte-order mark', bool(ctor_sites) and not sniffing,
+                 detail=str(sniffing) if sniffing else 'constructors used: with_bom_removal / without_bom_handling only',
+                 what='a decoder built with %s switches to UTF-16 when the input starts with FF FE or FE FF: the bytes are no longer decoded as UTF-8' % (
+                     ', '.join('%s in %s (line %s)' % (c_, f_, l_) for f_, c_, l_ in sniffing)))
     bad = [f for f in ctor_sites if f not in (BNEW, BSEL)]
     chk.instance('R-STREAM', 'ByteParser', 'decoder constructed only at construction / mode switch', bool(ctor_sites) and not bad,
                  detail='constructed in %s' % sorted(short(f) for f in set(ctor_sites)),
